@@ -1258,3 +1258,43 @@ Proof.
   intros Ho Hl Hm. unfold wf_cfg. rewrite Ho. cbn [waf_buf_opts bo_mem bo_limit].
   destruct (w_req_inmem w); lia.
 Qed.
+
+
+(* ---------- RuleEngine DetectionOnly ---------- *)
+Lemma engine_cfg_det c : wf_cfg c -> c_access c = true ->
+  let c' := engine_cfg EngDetectionOnly c in
+  wf_cfg c' /\ active c' /\ c_action c' = c_action c /\ deny_intr c' = None /\ L c' = L c /\ c_dir c' = c_dir c.
+Proof. intros W Ha. cbv zeta. repeat split; try exact Ha; destruct W as (A & B & C); assumption. Qed.
+
+(* ProcessPartial in DetectionOnly: buffering, truncation, the data-error flag and the single evaluation of
+   the body phase are those of On, and no call sequence ever leaves an interruption, even with a deny rule
+   in the body phase *)
+Theorem detection_only_partial c ks : wf_cfg c -> c_access c = true -> c_action c = ProcessPartial -> calls_ok ks ->
+  let c' := engine_cfg EngDetectionOnly c in
+  let s' := tb_final c' (init c') ks in
+  s_intr s' = None
+  /\ stored s' = firstn (Z.to_nat (L c)) (supplied ks)
+  /\ s_dataerr s' = (L c <=? blen (supplied ks))
+  /\ (s_runs s' <= 1)%nat.
+Proof.
+  intros W Ha HP Hok. cbv zeta. destruct (engine_cfg_det c W Ha) as (W' & A' & Eact & Ed & EL & _).
+  rewrite HP in Eact.
+  pose proof (pp_stored_prefix _ W' A' Eact ks Hok) as (H1 & H2). rewrite EL in *.
+  pose proof (pp_phase_once _ W' A' Eact ks Hok) as H3. cbv zeta in H3.
+  destruct (pp_trigger _ _ _).
+  - destruct H3 as (R1 & _ & R3 & _). rewrite Ed in R3. repeat split; try assumption. lia.
+  - destruct H3 as (R1 & _ & R3 & _). repeat split; try assumption. lia.
+Qed.
+
+(* Reject in DetectionOnly: setAndReturnBodyLimitInterruption does not look at the engine mode - the call
+   that reaches the limit is still answered with 413 / 500 (what the code does; finding F12 under C02) *)
+Theorem detection_only_reject_still_rejects c ws k : wf_cfg c -> c_access c = true -> c_action c = Reject ->
+  writes_ok (ws ++ [k]) ->
+  let c' := engine_cfg EngDetectionOnly c in
+  r_intr (snd (tb_step c' (tb_final c' (init c') ws) k))
+  = (if L c <=? blen (supplied (ws ++ [k])) then Some (limit_status (c_dir c)) else None).
+Proof.
+  intros W Ha HR Hw. cbv zeta. destruct (engine_cfg_det c W Ha) as (W' & A' & Eact & _ & EL & Edir).
+  rewrite HR in Eact. pose proof (rj_exact _ W' A' Eact ws k Hw) as (H & _). cbv zeta in H.
+  rewrite EL, Edir in H. exact H.
+Qed.
